@@ -206,6 +206,9 @@ Judge(e) ==
   \cup (IF P.v < Lv THEN {"VersionsMonotone"} ELSE {})
   \cup
   (IF e.res = "panic" THEN {"Panic"}
+   \* (a compaction is two commits: the reservation of fragment ids, then the rewrite.  When the rewrite loses a
+   \*  conflict the reservation stays published: one more version with the same fragments and rows)
+   ELSE IF ~ok /\ op = "compact" THEN (IF P.frags = L.frags /\ P.v \in {Lv, Lv + 1} THEN {} ELSE {"FailedHasNoEffect"})
    ELSE IF ~ok \/ ~isWrite THEN (IF P # L /\ op # "reread" THEN {"FailedHasNoEffect"} ELSE {})
    ELSE
    CASE op \in {"append", "commit"} -> IF AppendRel(L, P, st) THEN {} ELSE {"ScanEqualsModel"}
